@@ -276,6 +276,8 @@ impl<const K: usize> AffTree<K> {
                 let mut created_children = 0;
                 let mut skipped_children = 0;
                 let mut label_created = None;
+                // infeasible children are removed only after all siblings have been processed
+                let mut infeasible: Vec<(Label, TreeIndex, TreeIndex)> = Vec::new();
 
                 for edg in lhs.tree.children(parent0_idx) {
                     let child0_idx = edg.target_idx;
@@ -307,11 +309,26 @@ impl<const K: usize> AffTree<K> {
                         label_created = Some(label);
                     } else {
                         skipped_children += 1;
-                        rhs.tree.remove_child(parent1_idx, label);
+                        infeasible.push((label, child0_idx, child1_idx));
                     }
                 }
 
-                // In the case of no children remove_child already cleans up the tree
+                // A decision must keep at least one child: without children the node would be
+                // read as a terminal although it holds a predicate. When every edge is
+                // infeasible one of them is kept (less pruning, same function).
+                if created_children == 0 {
+                    if let Some((label, child0_idx, child1_idx)) = infeasible.pop() {
+                        stack.push((child0_idx, child1_idx));
+                        created_children += 1;
+                        skipped_children -= 1;
+                        n_nodes += 1;
+                        label_created = Some(label);
+                    }
+                }
+                for (label, _, _) in infeasible {
+                    rhs.tree.remove_child(parent1_idx, label);
+                }
+
                 if created_children == 1 && created_children + skipped_children == K {
                     debug!("Forwarding node");
                     // Move affine function to parent node and clean up tree
